@@ -55,6 +55,21 @@ func genC06(t *rapid.T, e *Env) *C06Case {
 	c.Multiline = rapid.SampledFrom([]string{"", "backslash"}).Draw(t, "multiline")
 	c.Steps = genScript(t, e, 0, 12)
 
+	// autosuggestion is off in this check (with it on, forward movements at the
+	// end of the line accept part of the suggestion, by design): the commands
+	// that switch it on are left out of the scripts like the variable is
+	kept := c.Steps[:0]
+
+	for _, s := range c.Steps {
+		if strings.HasPrefix(s.Note, "autosuggest-") || strings.HasPrefix(s.Cmd, "autosuggest-") {
+			continue
+		}
+
+		kept = append(kept, s)
+	}
+
+	c.Steps = kept
+
 	// a buffer that is a proper prefix of a history entry, cursor on or after its
 	// last character (what history-based suggestions key on)
 	if len(c.Hist) > 0 && rapid.IntRange(0, 4).Draw(t, "prefixstate") == 0 {
